@@ -216,11 +216,24 @@ func VerifC19Update() {
 		fs.Add(uint64(vsym.Param("cb")) + 3)
 		fs.Remove(c)
 	case 9: // ParOr on disjoint columns
-		o, mo := vGenBSIAt(1, w, 2)
+		ow := w
+		if w2 := vsym.Param("w2"); w2 > 0 {
+			ow = w2
+		}
+		o, mo := vGenBSIAt(1, ow, 2)
 		_, clash := m.get(mo.ps[0].col)
 		vsym.Assume(!clash)
-		b.ParOr(vsym.Param("par"), o)
+		args := []*BSI{o}
 		m.set(mo.ps[0].col, mo.ps[0].val)
+		if w3 := vsym.Param("w3"); w3 > 0 {
+			// a second argument of another width (all on disjoint columns)
+			o2, mo2 := vGenBSIAt(1, w3, 3)
+			_, clash2 := m.get(mo2.ps[0].col)
+			vsym.Assume(!clash2)
+			args = append(args, o2)
+			m.set(mo2.ps[0].col, mo2.ps[0].val)
+		}
+		b.ParOr(vsym.Param("par"), args...)
 	case 10: // Add on non-negative values
 		for i := range m.ps {
 			vsym.Assume(m.ps[i].val >= 0)
